@@ -35,6 +35,7 @@ const prelude = `(set-option :produce-models true)
 
 // collect symbols
 type symtab struct {
+	dynLits map[int64]bool // type ids compared with a dyntype(...) term
 	vars    map[string]*Sort
 	ufs     map[string]bool
 	structs map[string]*Sort
@@ -95,6 +96,16 @@ func (st *symtab) walk(e *Engine, t *Term, seen map[*Term]bool, bound map[string
 	}
 	if _, ok := e.ufuncs[t.Op]; ok {
 		st.ufs[t.Op] = true
+	}
+	if t.Op == "=" && len(t.Args) == 2 {
+		for k := 0; k < 2; k++ {
+			if t.Args[k].Op == "dyntype" && t.Args[1-k].IsIntLit() {
+				if st.dynLits == nil {
+					st.dynLits = map[int64]bool{}
+				}
+				st.dynLits[t.Args[1-k].Val.Int64()] = true
+			}
+		}
 	}
 	if t.Op == "at" {
 		st.ufs["at"] = true
@@ -164,7 +175,9 @@ func (e *Engine) header(st *symtab) string {
 	}
 	if st.ufs["implErr"] {
 		for _, id := range nonErrorTypeIDs() {
-			fmt.Fprintf(&sb, "(assert (not (implErr %d)))\n", id)
+			if st.dynLits[int64(id)] {
+				fmt.Fprintf(&sb, "(assert (not (implErr %d)))\n", id)
+			}
 		}
 	}
 	// distinct string literals are distinct strings
